@@ -70,6 +70,8 @@ pub struct Gen<'t, 'c> {
     shared_counter_busy: bool,
     /// while set, no call is generated (body of a loop that counts in the shared counter)
     no_calls: usize,
+    /// statements that must stand directly in front of the FOR statement just generated
+    for_pre: Vec<Stmt>,
 }
 
 const SMALL: [i64; 12] = [0, 1, 2, 3, 4, 5, 7, 8, 10, 12, 16, 20];
@@ -101,6 +103,7 @@ impl<'t, 'c> Gen<'t, 'c> {
             shared_counter: None,
             shared_counter_busy: false,
             no_calls: 0,
+            for_pre: vec![],
         }
     }
 
@@ -675,7 +678,11 @@ impl<'t, 'c> Gen<'t, 'c> {
                 out.push(Stmt::If { arms, else_ });
             }
             13 | 14 => out.push(self.select_stmt(depth)),
-            15 | 16 | 17 => out.push(self.for_stmt(depth)),
+            15 | 16 | 17 => {
+                let f = self.for_stmt(depth);
+                out.append(&mut self.for_pre);
+                out.push(f);
+            }
             18 => {
                 let (init, _c, cond, inc) = self.bounded_loop_header();
                 let extra = if self.t.chance(1, 3) { Some(self.cond(0)) } else { None };
@@ -820,6 +827,16 @@ impl<'t, 'c> Gen<'t, 'c> {
             self.shared_counter_busy = false;
             self.no_calls -= 1;
         }
+        // the step held in a variable that the body changes: the step of the loop is the value it had on entry
+        let (step, body) = if step_kind == 4 && cty.is_whole() && !use_shared && self.t.chance(1, 2) {
+            let sv = self.fresh_counter(Ty::Int);
+            self.for_pre.push(Stmt::Assign(sv.clone(), Expr::Un(UnOp::Neg, Box::new(lit_i(2)))));
+            let mut bd = body;
+            bd.push(Stmt::Assign(sv.clone(), Expr::Bin(BinOp::Sub, Box::new(Expr::Load(sv.clone())), Box::new(lit_i(1)))));
+            (Some(Expr::Load(sv)), bd)
+        } else {
+            (step, body)
+        };
         let next_names = self.t.chance(1, 3);
         // now and then a bound is written in parentheses (a keyword may follow the closing parenthesis without a blank)
         let to = if self.t.chance(1, 6) { Expr::Paren(Box::new(to)) } else { to };
